@@ -204,6 +204,60 @@ theorem c24_model_is_source (s : Buf α) (x : α) :
   · cases s.buf.head? <;> rfl
   · rfl
 
+/-! ## `capacity()` really is a constant of the buffer (the one runtime fact the model assumes)
+
+The model treats `self.buffer.capacity()` as the constant `cap`. `VecDeque` changes its capacity
+only when `push_back` is called on a full deque (`len == capacity`, documented in `std`); the two
+theorems below show that the code *as written* never does that, and that the order of its two
+steps is what guarantees it (seeded change C24-3: push first, trim afterwards). -/
+
+/-- **The real `insert` never pushes into a full deque.** In every reachable state
+    (`buf.length ≤ cap`, `1 ≤ cap`) the deque that `push_back` is called on holds fewer than
+    `cap` items, so no reallocation happens and `capacity()` keeps its initial value. -/
+theorem c24_push_never_reallocates (s : Buf α) (hc : 1 ≤ s.cap) (hl : s.buf.length ≤ s.cap) :
+    (if s.buf.length + 1 > s.cap then s.buf.tail else s.buf).length + 1 ≤ s.cap := by
+  split
+  · simp only [List.length_tail]; omega
+  · omega
+
+/-- … and that premise holds after any insert sequence (`c24_bounded` plus the constant `cap`). -/
+theorem c24_push_never_reallocates_run (cap : Nat) (hc : 1 ≤ cap) (xs : List α) :
+    let s := after (new cap : Buf α) xs
+    (if s.buf.length + 1 > s.cap then s.buf.tail else s.buf).length + 1 ≤ s.cap := by
+  have h := inv_runAcc (new cap : Buf α) [] xs (inv_new cap hc)
+  rw [runAcc_fst] at h
+  have hcap : (after (new cap : Buf α) xs).cap = cap := by simpa [new] using h.2
+  have hb := c24_bounded cap hc xs
+  exact c24_push_never_reallocates _ (by omega) (by omega)
+
+/-- `VecDeque` growth on `push_back` (amortised doubling when full, otherwise unchanged). -/
+def growCap (cap len : Nat) : Nat := if len + 1 > cap then max (2 * cap) (len + 1) else cap
+
+/-- The push-first variant: the bound is read before the push, the push reallocates a full deque,
+    the trim afterwards compares with the bound read earlier — and the *next* call reads the
+    grown `capacity()`. -/
+def insertPushFirst (s : Buf α) (x : α) : Buf α × Bool :=
+  if x ∈ s.set then (s, false)
+  else
+    let bound := s.cap
+    let cap' := growCap s.cap s.buf.length
+    let buf1 := s.buf ++ [x]
+    let set1 := x :: s.set
+    if buf1.length > bound then
+      ({ cap := cap', buf := buf1.tail,
+         set := match buf1.head? with
+                | some e => set1.erase e
+                | none => set1 }, true)
+    else ({ cap := cap', buf := buf1, set := set1 }, true)
+
+/-- **Push-first breaks the window** once reallocation is modelled: capacity 1, three distinct
+    items — two are remembered and the evicted-by-rights item 1 is still reported a duplicate.
+    (With `cap` frozen the two orders are equivalent; this is why the correspondence run on the
+    real `VecDeque`, not the source tie alone, is what exhibits C24-3.) -/
+theorem c24_push_first_violates :
+    let s := [0, 1, 2].foldl (fun s x => (insertPushFirst s x).1) (new 1 : Buf Nat)
+    s.buf.length = 2 ∧ (insertPushFirst s 1).2 = false ∧ 1 ∉ lastN 1 [0, 1, 2] := by decide
+
 /-! ## Non-vacuity: a concrete run with an eviction and a re-insertion of the evicted item. -/
 example : (after (new 2 : Buf Nat) [1, 2, 1, 3, 1]).buf = [3, 1] := by decide
 example : accepted (new 2 : Buf Nat) [1, 2, 1, 3, 1] = [1, 2, 3, 1] := by decide
